@@ -133,6 +133,11 @@ def build_controller(cfg):
         pclass, sclass = ex.MultiDiagProb, multi_implicit
         pp = {k: per_level(k) for k in ('lam1', 'c1', 'lam2', 'c2')}
         sp = {'Q1': per_level('Q1', 'IE'), 'Q2': per_level('Q2', 'IE')}
+    elif cfg['kind'] == 'MASS':
+        from pySDC.implementations.sweeper_classes.imex_1st_order_mass import imex_1st_order_mass
+        pclass, sclass = ex.MassDiagProb, imex_1st_order_mass
+        pp = {k: per_level(k) for k in ('lamI', 'cI', 'lamE', 'muE', 'cE', 'mass')}
+        sp = {'QI': per_level('QI', 'IE'), 'QE': per_level('QE', 'EE')}
     else:
         pclass, sclass = ex.ImexDiagProb, imex_1st_order
         pp = {k: per_level(k) for k in ('lamI', 'cI', 'lamE', 'muE', 'cE')}
